@@ -524,20 +524,38 @@ KNOWN_JUMP = "findMatching:vp-root-on-unconverged-jump"
 
 
 def vp_root_on_jump(h, vw, vp, Tp):
-    """Narrow mechanism of the finding KNOWN_JUMP, measured on the live object right after
-    matching(h, vw): the final 2x2 solve converged, but while brentq searched v+ at least one
-    inner matchDeflagOrHyb solve did not (its garbage makes shockTnuclDiff jump), and the
-    returned (v+, T+) does NOT satisfy the shock boundary condition: the shock started from it
-    ends at a temperature more than 0.1% away from Tn."""
-    calls = list(HYBR["calls"])
-    if not calls or not calls[-1] or all(calls):
-        return None
+    """Narrow mechanism of the finding KNOWN_JUMP, measured on the live object: the returned
+    (v+, T+) does NOT satisfy the shock boundary condition (the shock started from it ends more
+    than 0.1% away from Tn) AND the shooting residual the code's brentq was given,
+        r(x) = solveHydroShock(vw, x, matchDeflagOrHyb(vw, x).T+) - Tn,
+    rebuilt here, JUMPS across the returned v+: for some d in {10,100,1000} brentq tolerances,
+    r(v+ - d) and r(v+ + d) have opposite signs, both exceed 0.1% Tn in size, and one of the
+    two 2x2 solves did not converge (Hydrodynamics.success False).  A genuine zero of a wrong
+    function, or any other wrong v+, does not pass.  Returns the shock end temperature or None."""
+    Tn = h.Tnucl
+    vw, vp = float(vw), float(vp)
     try:
-        back = float(h.solveHydroShock(float(vw), float(vp), float(Tp)))
+        back = float(h.solveHydroShock(vw, vp, float(Tp)))
     except Exception:
         return None
-    return back if abs(back - h.Tnucl) > 1e-3 * h.Tnucl else None
+    if abs(back - Tn) <= 1e-3 * Tn:
+        return None
 
+    def r(x):
+        t = h.matchDeflagOrHyb(vw, x)
+        ok = bool(h.success)
+        return float(h.solveHydroShock(vw, x, float(t[2]))) - Tn, ok
+    step = h.atol + h.rtol * vp
+    for d in (10 * step, 100 * step, 1000 * step, 1e-7, 1e-6, 1e-5):
+        if not 0 < d < 0.5 * vp:
+            continue
+        try:
+            (ra, oka), (rb, okb) = r(vp - d), r(vp + d)
+        except Exception:
+            continue
+        if ra * rb < 0 and min(abs(ra), abs(rb)) > 1e-3 * Tn and not (oka and okb):
+            return back
+    return None
 
 
 def deton_residual(model, vw, tm):
@@ -610,7 +628,19 @@ def jouguet_checks(ctx, label, case, model, h, templ_exact):
     if Tref > THy * (1 + 1e-3):
         # outside the configured temperature window: only the documented fallback (logged by
         # the code) or the true point are acceptable
-        ctx.count("jouguet_outside_hydro_window", bucket="fallback" if fell_back else "other")
+        ctx.count("jouguet_outside_hydro_window", bucket="fallback" if fell_back else (
+            "secant-converged-on-CJ" if abs(h.vJ - vref) <= 1e-6 else "other"))
+        good = [r for r in h.c06_jouguet if r["converged"]]
+        if not fell_back and good:
+            # a converged result was accepted outside the window: it must still be a zero
+            r = good[-1]
+            sc = max(abs(r["f"](Tn)), abs(r["f"](2 * Tn)), 1e-300)
+            ctx.count("tmSol_zero", bucket=str(r["method"]) + "-outside-window")
+            if abs(r["f"](r["root"])) > 1e-6 * sc:
+                ctx.fail_input("findJouguetVelocity accepted tmSol=%.8f from %s where "
+                               "|vpDerivNum| = %.3e * scale: not a zero [%s]" % (
+                                   r["root"], r["method"], abs(r["f"](r["root"])) / sc, label),
+                               rep, key="CJ:tmSol-not-a-zero")
         if not fell_back and abs(h.vJ - vref) > 1e-6:
             ctx.fail_input("T-(CJ)=%.4f > tmax*Tn=%.4f and vJ=%.8f is neither the template "
                            "fallback %.8f nor the Chapman-Jouguet velocity %.8f [%s]" % (
@@ -695,6 +725,15 @@ def clause_failures(kind, vw, vp, vm, Tp, Tm, cs, Tn, vJ, tol=1e-9):
     return bad
 
 
+def vw_grid_short(h):
+    """strong-family grid: window start, 3 interior points, both sides of vJ, towards 1"""
+    lo0 = h.vMin + h.vBracketLow
+    top = h.vJ * (1 - 1e-3)
+    grid = [lo0] + [lo0 + f * (top - lo0) for f in (0.25, 0.5, 0.75)] + \
+        [top, h.vJ * (1 + 1e-6), h.vJ * (1 + 1e-2), 0.5 * (h.vJ + 0.99), max(0.99, 0.5 * (h.vJ + 1))]
+    return sorted(set(float(v) for v in grid if lo0 <= v < 1)), {float(lo0)}
+
+
 def vw_grid(ctx, h):
     """from the slow end of the bracket used by fastestDeflag (vMin + vBracketLow) to 0.99:
     regular points, the points around vJ, and seeded random points stratified over the slow
@@ -716,12 +755,12 @@ def vw_grid(ctx, h):
     return sorted(set(float(v) for v in grid if lo0 <= v < 1)), set(float(v) for v in head)
 
 
-def admissibility(ctx, label, case, model, h):
+def admissibility(ctx, label, case, model, h, short=False):
     """every matching over vw in [vMin+vBracketLow, 0.99]: speeds, temperatures, branch,
     orderings.  Returns the curve and the velocity below which the known slow-wall finding
     (spurious solution) was met (None if not)."""
     Tn = model.Tnucl
-    grid, head = vw_grid(ctx, h)
+    grid, head = vw_grid_short(h) if short else vw_grid(ctx, h)
     curve = []
     pending = []          # head points whose only failing clause concerns T+
     for vw in grid:
@@ -769,10 +808,9 @@ def admissibility(ctx, label, case, model, h):
             back = vp_root_on_jump(h, vw, vp, Tp)
             if back is not None:
                 ctx.fail_input("vw=%.6f: v+=%.6f T+=%.6f T-=%.6f is not the matching for Tn=%.4g: "
-                               "its shock ends at %.6f; brentq in v+ stopped on a jump caused by "
-                               "unconverged inner 2x2 solves (%d of %d) [%s]" % (
-                                   vw, vp, Tp, Tm, Tn, back, HYBR["calls"].count(False),
-                                   len(HYBR["calls"]), label), dict(rep, shock_end=back),
+                               "its shock ends at %.6f; brentq in v+ stopped on a jump of the "
+                               "shooting residual caused by an unconverged 2x2 solve [%s]" % (
+                                   vw, vp, Tp, Tm, Tn, back, label), dict(rep, shock_end=back),
                                key=KNOWN_JUMP)
                 continue
         # narrow class rule of the known finding: a very slow wall (vw < 0.05, where the true
@@ -935,7 +973,66 @@ def call_guarded(ctx, label, rep, h, name):
     return val
 
 
-def range_limits(ctx, label, case, curve, h0, jump_v):
+def independent_Tm_deton(model, vw):
+    """T-(vw) of a detonation from p and e only (harness copy of the junction residual):
+    the FIRST zero above Tn"""
+    from scipy.optimize import brentq, minimize_scalar
+    Tn = model.Tnucl
+    f = lambda t: deton_residual(model, vw, t)
+    ts = np.geomspace(Tn, 12 * Tn, 600)
+    vals = [f(t) for t in ts]
+    if not vals[0] > 0:
+        return None
+    for a, b, fa, fb in zip(ts, ts[1:], vals, vals[1:]):
+        if fa > 0 >= fb:
+            return float(brentq(f, a, b, xtol=1e-13 * Tn))
+    # close to the Jouguet velocity the residual dips below zero only on a short interval
+    i = int(np.argmin(vals))
+    if 0 < i < len(ts) - 1:
+        r = minimize_scalar(f, bounds=(ts[i - 1], ts[i + 1]), method="bounded",
+                            options=dict(xatol=1e-13 * Tn))
+        if r.fun <= 0:
+            return float(brentq(f, ts[i - 1], float(r.x), xtol=1e-13 * Tn))
+    return None
+
+
+def judge_cut_matching(ctx, label, rep, model, h, vw, ref_model):
+    """a matching returned by a CUT-table object is judged like any other: clauses, junction
+    residual, and (detonations: p, e only) agreement with the independent T-(vw)"""
+    (vp, vm, Tp, Tm), conv = matching(h, vw)
+    if vp is None:
+        ctx.fail_input("findMatching(%.6f) returned no solution on the cut-table object [%s]" % (
+            vw, label), dict(rep, vw=float(vw)), key="findMatching-none")
+        return None
+    vp, vm, Tp, Tm = float(vp), float(vm), float(Tp), float(Tm)
+    Tn = model.Tnucl
+    ctx.count("cut_object_matching")
+    if vw > h.vJ:
+        cs = math.sqrt(max(float(model.csqLowT(Tm)), 0.0))
+        bad = clause_failures("detonation", vw, vp, vm, Tp, Tm, cs, Tn, h.vJ)
+        # v- >= cs is judged on the ample model only (toy models freeze cs^2 above the cut)
+        bad = [b for b in bad if "strong branch" not in b]
+        Tind = independent_Tm_deton(ref_model, vw)
+        if Tind is None:
+            bad.append("no detonation solution exists (p, e only) but one was returned")
+        else:
+            # the code's brentq for T- stops at xtol = atol, rtol
+            tolTm = max(1e-6, 10 * max(h.c06_args[2], h.c06_args[3] / Tn))
+            margin("cut_deton_Tm_vs_independent (max(1e-6, 10 rtol))", abs(Tm - Tind) / Tind, tolTm)
+            if abs(Tm - Tind) > tolTm * Tind:
+                bad.append("detonation T-=%.8f differs from the junction solution %.8f" % (Tm, Tind))
+        res = abs(deton_residual(ref_model, vw, Tm)) / (abs(deton_residual(ref_model, vw, Tn)) + 1e-300)
+        if res > max(1e-5, 100 * max(h.c06_args[2], h.c06_args[3] / Tn)):
+            bad.append("detonation violates the junction condition (relative residual %.2e)" % res)
+        for b in bad:
+            ctx.fail_input("cut-table object (TMaxLowT=%.6g): vw=%.6f: %s (v+=%.6f v-=%.6f T+=%.6f "
+                           "T-=%.6f) [%s]" % (model.TMaxLowT, vw, b, vp, vm, Tp, Tm, label),
+                           dict(rep, vw=float(vw), vp=vp, vm=vm, Tp=Tp, Tm=Tm),
+                           key="admissibility:" + b.split(" (")[0].split(" T-=")[0])
+    return vp, vm, Tp, Tm, conv
+
+
+def range_limits(ctx, label, case, curve, h0, jump_v, light=False):
     """tabulated ranges that cut the window short, with the 'phase really ends' flag both
     ways: the advertised fastest deflagration / slowest detonation"""
     Tn = h0.Tnucl
@@ -962,6 +1059,12 @@ def range_limits(ctx, label, case, curve, h0, jump_v):
                ("both", Tm_lo + rng.uniform(0.3, 0.9) * (Tm_hi - Tm_lo),
                 Tp_lo + rng.uniform(0.3, 0.9) * (Tp_hi - Tp_lo)),
                ("ample", big, big)]
+    if light:
+        configs = configs[:1]
+    elif Tp_lo > Tn * 1.005 and jump_v is None:
+        # documented behaviour (theorem fastest_blind_when_window_starts_out_of_range): the
+        # high-T table already ends below T+ at the slow end of a shock-limited window
+        configs.append(("start-out", big, Tn + 0.5 * (Tp_lo - Tn)))
     known_key = KNOWN_SLOW
     prev_raised_flag = False
     lo0 = h0.vMin + h0.vBracketLow
@@ -977,6 +1080,8 @@ def range_limits(ctx, label, case, curve, h0, jump_v):
         combos = [(False, False), (True, True)] if ctx.quick else \
             [(False, False), (True, True), (True, False), (False, True)]
         rng.shuffle(combos)
+        if light or which == "start-out":
+            combos = combos[:1]
         for lowEnds, highEnds in combos:
             model = make_model(case)
             set_ranges(model, TML, lowEnds, TMH, highEnds)
@@ -1001,6 +1106,14 @@ def range_limits(ctx, label, case, curve, h0, jump_v):
             flags = [bool(x) for x in h.doesPhaseTraceLimitvmax]
             prev_raised_flag = prev_raised_flag or any(flags)
             rep.update(vmax=vmax, vJ=h.vJ, flags=flags)
+            if which == "start-out":
+                ctx.count("window_start_out_of_range_real")
+                if abs(vmax - h.vJ) > 1e-12 or flags != [False, False]:
+                    ctx.fail_input("T+ at the slow end of the window (%.6f) is already above "
+                                   "TMaxHighT=%.6f: the decision model predicts vJ and no flag, "
+                                   "the code gives %.6f %s [%s]" % (Tp_lo, TMH, vmax, flags, label),
+                                   rep, key="fastestDeflag:window-start-out-of-range")
+                continue
             vJ_is_smallest_detonation(ctx, label, rep, model, h)
             results[(lowEnds, highEnds)] = vmax
             ctx.count("fastestDeflag_real", dict(case=case, which=which, e=[lowEnds, highEnds]),
@@ -1094,9 +1207,18 @@ def range_limits(ctx, label, case, curve, h0, jump_v):
                 dict(kind="range", case=case, which=which, TMaxLowT=TML, TMaxHighT=TMH,
                      results={str(k): v for k, v in results.items()}),
                 key="fastestDeflag:depends-on-phase-end-flag")
-    # ---- slowest detonation: T- decreases from T-(vJ+) to T-(1)
-    Tm_1 = float(h0.findMatching(1.0)[3])
-    Tm_J = det[0][2]
+    # ---- slowest detonation: T- decreases from T-(vJ+) to T-(1).  Judged against an
+    # INDEPENDENT T-(vw) (junction condition from p and e of the ample-table model), never
+    # against the matching returned by the cut-table object itself.
+    from scipy.optimize import brentq
+    ref = make_model(case)
+    Tm_1 = independent_Tm_deton(ref, 1.0)
+    Tm_J = independent_Tm_deton(ref, h0.vJ * (1 + 1e-6))
+    if Tm_1 is None or Tm_J is None:
+        ctx.broken.append("harness: no independent detonation temperature for %s" % label)
+        return
+    margin("T-(1) code vs independent (1e-6)", abs(float(h0.findMatching(1.0)[3]) - Tm_1) / Tm_1,
+           1e-6)
     cfgs = [("cut", Tm_1 + rng.uniform(0.2, 0.8) * (Tm_J - Tm_1), big),
             ("cut-highTlow", Tm_1 + rng.uniform(0.2, 0.8) * (Tm_J - Tm_1),
              Tn + 0.5 * (Tm_1 - Tn)),
@@ -1104,6 +1226,8 @@ def range_limits(ctx, label, case, curve, h0, jump_v):
             ("none-admissible-highTlow", Tn + 0.6 * (Tm_1 - Tn), Tn + 0.3 * (Tm_1 - Tn)),
             ("all-admissible-highTlow", Tm_J * 1.05, Tn + 0.5 * (Tm_1 - Tn)),
             ("ample", big, big)]
+    if light:
+        cfgs = [cfgs[0], cfgs[2]]
     for which, TML, TMH in cfgs:
         if TML <= Tn or TMH <= Tn:
             continue
@@ -1126,31 +1250,55 @@ def range_limits(ctx, label, case, curve, h0, jump_v):
         if not (h.vJ * (1 - 1e-12) <= vmin <= 1):
             ctx.fail_input("slowestDeton()=%.6f outside [vJ=%.6f, 1] [%s]" % (vmin, h.vJ, label),
                            rep, key="slowestDeton:outside-[vJ,1]")
+        # two-sided: 1 is returned exactly when no detonation is admissible
         if vmin >= 1:
             if Tm_1 <= TML * (1 - 1e-6):
                 ctx.fail_input("slowestDeton()=1 (no admissible detonation) although T-(vw=1)="
                                "%.6f <= TMaxLowT=%.6f [%s]" % (Tm_1, TML, label), rep,
                                key="slowestDeton:returns-1-although-admissible")
             continue
-        for vw in np.linspace(max(vmin, h.vJ + 1e-4), 0.999, ctx.n(6, 25)):
-            _, _, Tp, Tm = h.findMatching(float(vw))
+        if Tm_1 > TML * (1 + tolT):
+            ctx.fail_input("slowestDeton()=%.6f < 1 although even the fastest detonation has "
+                           "T-(vw=1)=%.6f > TMaxLowT=%.6f: no detonation is admissible [%s]" % (
+                               vmin, Tm_1, TML, label), rep,
+                           key="slowestDeton:admits-detonations-although-none-admissible")
+            continue
+        pts = list(np.linspace(max(vmin, h.vJ * (1 + 1e-6), h.vJ + 1e-4), 0.999, ctx.n(6, 25)))
+        for k, vw in enumerate(pts):
+            Tind = independent_Tm_deton(ref, float(vw))
             ctx.count("faster_detonation")
-            margin("faster_detonation_T/TMax-1 (tolT)", Tm / TML - 1, tolT)
-            if Tm > TML * (1 + tolT):
+            if Tind is None:
+                ctx.fail_input("no detonation solution exists at vw=%.6f > slowestDeton()=%.6f "
+                               "[%s]" % (vw, vmin, label), dict(rep, vw=float(vw)),
+                               key="slowestDeton:faster-wall-out-of-range")
+                break
+            margin("faster_detonation_T/TMax-1 (tolT)", Tind / TML - 1, tolT)
+            if Tind > TML * (1 + tolT):
                 ctx.fail_input(
                     "slowestDeton()=%.6f (vJ=%.6f) but the faster detonation vw=%.6f has T-=%.6f"
-                    " > TMaxLowT=%.6f (TMaxHighT=%.6f) [%s]" % (vmin, h.vJ, vw, Tm, TML, TMH,
+                    " > TMaxLowT=%.6f (TMaxHighT=%.6f) [%s]" % (vmin, h.vJ, vw, Tind, TML, TMH,
                                                                label),
-                    dict(rep, vw=float(vw), Tm=float(Tm)),
+                    dict(rep, vw=float(vw), Tm=float(Tind)),
                     key="slowestDeton:faster-wall-out-of-range")
                 break
+            if k in (0, len(pts) // 2, len(pts) - 1):
+                judge_cut_matching(ctx, label, rep, model, h, float(vw), ref)
         if h.vJ + 2e-3 < vmin < 1:
-            _, _, Tp, Tm = h.findMatching(vmin - 0.01)
-            margin("slowest_range_hit (5 tolT)", abs(Tm - TML) / TML, 5 * tolT)
-            if abs(Tm - TML) / TML > 5 * tolT:
-                ctx.fail_input("slowestDeton()-0.01=%.6f is not where T- reaches TMaxLowT "
-                               "(T-=%.6f, TMaxLowT=%.6f) [%s]" % (vmin - 0.01, Tm, TML, label),
-                               rep, key="slowestDeton:not-a-range-hit")
+            f = lambda v: independent_Tm_deton(ref, v) - TML
+            lo_v = h.vJ * (1 + 1e-6)
+            if f(lo_v) > 0 > f(1.0):
+                vx = float(brentq(f, lo_v, 1.0, xtol=1e-12))
+                dv = abs(vmin - 0.01 - vx)
+                # brentq of the code: xtol = atol, rtol; T-(vw) itself to ~rtol: 100 rtol
+                margin("slowest_crossing (100 rtol, >= 1e-5)", dv, max(1e-5, 100 * rtol))
+                if dv > max(1e-5, 100 * rtol):
+                    ctx.fail_input("slowestDeton()-0.01=%.6f but T-(vw) reaches TMaxLowT=%.6f at "
+                                   "vw=%.6f [%s]" % (vmin - 0.01, TML, vx, label),
+                                   dict(rep, crossing=vx), key="slowestDeton:not-a-range-hit")
+            else:
+                ctx.fail_input("slowestDeton()=%.6f strictly inside (vJ, 1) although T-(vw) does "
+                               "not cross TMaxLowT=%.6f on the detonation branch [%s]" % (
+                                   vmin, TML, label), rep, key="slowestDeton:not-a-range-hit")
 
 
 def strong_family(ctx):
@@ -1176,10 +1324,17 @@ def strong_family(ctx):
                     dict(eos="template", alN=alN, psiN=psiN, cb2=cb2, cs2=cs2, Tn=1.0), 1.2,
                     True))
     for label, case, Tc, templ_exact in fam:
-        for tmax in (1.3, 2, 10):
+        ref_cj = None
+        for tmax in (1.3, 2, 10, None):
             for cut in (True, False):
                 if not cut and tmax != 10:
                     continue
+                if tmax is None:
+                    # hydro window ending just below T-(CJ): first bracket and loop find no
+                    # sign change, the SECANT branch runs (it may converge outside the window)
+                    if ref_cj is None:
+                        continue
+                    tmax = 0.95 * ref_cj[1] / case["Tn"]
                 model = make_model(case)
                 if cut:
                     set_ranges(model, TMaxLow=Tc, lowEnds=True)
@@ -1191,10 +1346,23 @@ def strong_family(ctx):
                     ctx.fail_input("Hydrodynamics(...) raised %r [%s, tmax=%g]" % (ex, label, tmax),
                                    rep, key="constructor-raises")
                     continue
-                jouguet_checks(ctx, "%s tmax=%g cut=%s" % (label, tmax, cut), case, model, h,
-                               templ_exact)
+                lab = "%s tmax=%.4g cut=%s" % (label, tmax, cut)
+                r = jouguet_checks(ctx, lab, case, model, h, templ_exact)
+                ref_cj = ref_cj or r
                 if tmax == 10 and cut:
                     vmin_consistency(ctx, label, case, h)
+                if tmax == 10 and not cut and r is not None and h.vJ < 0.985:
+                    # F2: the matchings and the range functions themselves on strong
+                    # transitions (T-(CJ) up to 2.3 Tn, window start served by the template
+                    # fallback): short grid, CJ point, one cut pair
+                    try:
+                        curve, jump_v = admissibility(ctx, lab, case, model, h, short=True)
+                        chapman_jouguet(ctx, lab, case, model, h)
+                        range_limits(ctx, lab, case, curve, h, jump_v, light=True)
+                    except Exception:
+                        import traceback
+                        ctx.log("direct validation raised on", lab, traceback.format_exc())
+                        ctx.broken.append("harness: direct validation raised on %s" % lab)
 
 
 def tmin_observation(ctx):
@@ -1246,6 +1414,8 @@ def direct_validation(ctx):
             template_deflagration_branch(ctx, label, case, h)
             if case["eos"] != "template" or not ctx.quick or first_template:
                 range_limits(ctx, label, case, curve, h, jump_v)
+            else:
+                range_limits(ctx, label, case, curve, h, jump_v, light=True)
             if case["eos"] == "template":
                 first_template = False
         except Exception:
